@@ -182,6 +182,24 @@ func c01Scenarios(thorough bool) []c01Scenario {
 				}})
 		}
 	}
+	// a whale request of many banks next to two requests of a few units whose proportional share floors to 0 (refund only)
+	{
+		era := drive.EraStage(drive.StV4)
+		era.Name = "bank-pooled"
+		out = append(out, c01Scenario{name: "peg-requests/whale+two-zero-yield", era: era,
+			prefix: func(b *drive.Builder) {
+				b.Add(g(drive.BlockSpec{Factoid: []fake.FTx{kit.Burn(KA, 200000e8, BurnRCD(), 5)}}))
+				b.Add(g(drive.BlockSpec{TX: []fake.Entry{b.Tx(KA, kit.Conversion(A, "pFCT", 50000e8, "pUSD"))}}))
+				b.Add(g(drive.BlockSpec{}))
+				fund := b.Tx(KA, kit.Transfer(A, "pUSD", 1000, AddrB), kit.Transfer(A, "pUSD", 1000, AddrC))
+				b.Add(g(drive.BlockSpec{TX: []fake.Entry{fund}}))
+				b.Add(g(drive.BlockSpec{TX: []fake.Entry{b.Tx(KA, kit.Conversion(A, "pUSD", 60000e8, "PEG")), b.Tx(KB, kit.Conversion(AddrB, "pUSD", 10, "PEG")), b.Tx(KC, kit.Conversion(AddrC, "pUSD", 20, "PEG"))}}))
+			},
+			window: func(b *drive.Builder) {
+				b.Add(g(drive.BlockSpec{Rates: R2()}))
+				b.Add(g(drive.BlockSpec{}))
+			}})
+	}
 	// identical records
 	{
 		era := drive.EraStage(drive.StPIP10)
